@@ -60,6 +60,19 @@ def is_dict(t):
     return t.startswith('dict[')
 
 
+def is_rec(t):
+    return t.startswith('rec[')
+
+
+def t_rec(fields):
+    """a dict literal with constant string keys and values of different types: a record (keys in source order)"""
+    return 'rec[%s]' % ','.join('%s=%s' % (k, t) for k, t in fields)
+
+
+def rec_parts(t):
+    return [tuple(x.split('=', 1)) for x in split_args(t[4:-1])]
+
+
 def elem(t):
     return t[5:-1]
 
@@ -133,9 +146,18 @@ def unify(a, b):
     return 'any'
 
 
+# instances of the few classes the library defines, modelled by the value of one identifying attribute:
+# 'module.Class' -> (type name, attribute); the methods are modelled in translate.py (inst_method)
+INSTANCE_TYPES = {'stdnum.de.stnr._Format': ('stnrfmt', '_fmt')}
+_INSTANCE_ATTR = {t: a for t, a in INSTANCE_TYPES.values()}
+
+
 def type_of_value(v, depth=0):
     if v is None:
         return 'none'
+    q = '%s.%s' % (type(v).__module__, type(v).__qualname__)
+    if q in INSTANCE_TYPES:
+        return INSTANCE_TYPES[q][0]
     if isinstance(v, bool):
         return 'bool'
     if isinstance(v, int):
@@ -162,6 +184,11 @@ def type_of_value(v, depth=0):
         t = '?'
         for x in (sorted(v, key=repr) if isinstance(v, (set, frozenset)) else v):
             t = unify(t, type_of_value(x, depth + 1))
+        if t == 'any' and isinstance(v, list) and 2 <= len(v) <= 4:
+            # a short record-like list that mixes strings with modelled instances: typed like a tuple
+            ts = [type_of_value(x, depth + 1) for x in v]
+            if 'any' not in ts and any(x in _INSTANCE_ATTR for x in ts):
+                return t_tuple(ts)
         return 'any' if t == 'any' else t_list(t)
     if isinstance(v, tuple):
         ts = [type_of_value(x, depth + 1) for x in v]
@@ -246,6 +273,8 @@ def lean_type(t):
         return 'String'
     if t == 'numdb':
         return 'List Spec.NumDB.Entry'
+    if t in _INSTANCE_ATTR:
+        return 'Str'
     if is_list(t):
         if elem(t) == '?':
             raise Unsupported('list of unknown element type')
@@ -254,6 +283,8 @@ def lean_type(t):
         return 'Option ' + par(lean_type(opt_inner(t)))
     if is_tuple(t):
         return '(' + ' × '.join(par(lean_type(p)) for p in tuple_parts(t)) + ')'
+    if is_rec(t):
+        return '(' + ' × '.join(par(lean_type(p)) for _, p in rec_parts(t)) + ')'
     if is_dict(t):
         k, v = dict_parts(t)
         return 'List (%s × %s)' % (par(lean_type(k)), par(lean_type(v)))
@@ -277,12 +308,16 @@ def default_value(t):
         return '""'
     if t == 'numdb':
         return '([] : List Spec.NumDB.Entry)'
+    if t in _INSTANCE_ATTR:
+        return '([] : Str)'
     if is_list(t) or is_dict(t):
         return '([] : %s)' % lean_type(t)
     if is_opt(t):
         return '(none : %s)' % lean_type(t)
     if is_tuple(t):
         return '(' + ', '.join(default_value(p) for p in tuple_parts(t)) + ')'
+    if is_rec(t):
+        return '(' + ', '.join(default_value(p) for _, p in rec_parts(t)) + ')'
     raise Unsupported('default of ' + t)
 
 
@@ -306,6 +341,11 @@ def lean_value(v, t):
         return '(Date.mk %d %d %d)' % (v.year, v.month, v.day)
     if t == 'module':
         return '"%s"' % v.__name__
+    if t in _INSTANCE_ATTR:
+        a = getattr(v, _INSTANCE_ATTR[t])
+        if not isinstance(a, str):
+            raise Unsupported('instance attribute %s is not a str' % _INSTANCE_ATTR[t])
+        return '(%s : Str)' % lit_str(a)
     if is_opt(t):
         if v is None:
             return '(none : %s)' % lean_type(t)
